@@ -93,7 +93,7 @@ static int hk_main(int argc, char **argv, const char *engine) {
     { char cmd[700]; snprintf(cmd, sizeof cmd, "mkdir -p '%s'", hk_tmpdir); if (system(cmd)) return 2; }
     setvbuf(stdout, 0, _IOFBF, 1 << 16);
     for (long k = first; k < first + n; k++) { hk_case_begin((int)k); run_case((int)k); fflush(stdout); }
-    { char cmd[700]; snprintf(cmd, sizeof cmd, "rm -rf '%s'", hk_tmpdir); if (system(cmd)) {} }
+    if (!getenv("HK_KEEP")) { char cmd[700]; snprintf(cmd, sizeof cmd, "rm -rf '%s'", hk_tmpdir); if (system(cmd)) {} }
     printf("DONE cases=%ld oracle_failures=%ld\n", n, hk_nfail);
     return 0;
 }
